@@ -15,12 +15,34 @@ from . import terms as T
 
 
 class Obligation:
-    def __init__(self, name, hyps, goal, info, families=None):
+    def __init__(self, name, hyps, goal, info, families=None, raw=None):
         self.name, self.hyps, self.goal, self.info, self.families = name, list(hyps), goal, info, families or []
+        self.raw = raw
 
 
 class LoopMismatch(Exception):
     pass
+
+
+def messages_agree(cls, a, b):
+    """goal for exception messages. The properties constrain messages only for BlackbirdSyntaxError (C10/C11: the identifier, its line
+    and column are named): there the *arguments* of the format call must agree position by position (the wording is free). Messages of
+    other exception classes are not compared."""
+    if not (z3.is_int_value(cls) and cls.as_long() == EXC_CODE["BlackbirdSyntaxError"]):
+        return z3.BoolVal(True)
+    try:
+        av, bv = asV(a), asV(b)
+    except TypeError:
+        return z3.BoolVal(True)
+    fa = z3.is_app(av) and av.decl().name().startswith("py_format")
+    fb = z3.is_app(bv) and bv.decl().name().startswith("py_format")
+    if fa and fb:
+        if av.num_args() != bv.num_args():
+            return z3.BoolVal(False)
+        return z3.And(*[av.arg(i) == bv.arg(i) for i in range(1, av.num_args())]) if av.num_args() > 1 else z3.BoolVal(True)
+    if fa != fb:
+        return z3.BoolVal(False)
+    return av == bv
 
 
 def values_equal(a, b):
@@ -47,12 +69,13 @@ class Lockstep:
         self.stats = {"real_paths": 0, "spec_paths": 0, "loops": 0}
 
     def ob(self, name, hyps, goal, info, families=None):
+        raw = str(goal)[:400] if z3.is_expr(goal) else str(bool(goal))
         goal = z3.simplify(goal) if z3.is_expr(goal) else z3.BoolVal(bool(goal))
         key = (name, goal.sexpr(), tuple(sorted(h.sexpr() for h in hyps)))
         if key in self.seen:
             return
         self.seen.add(key)
-        self.obs.append(Obligation(name, hyps, goal, info, families or self.c.d.get("families", [])))
+        self.obs.append(Obligation(name, hyps, goal, info, families or self.c.d.get("families", []), raw))
 
     # ------------------------------------------------------------------------------------------------
     def initial_state(self, fdef):
@@ -147,7 +170,7 @@ class Lockstep:
         if ro.kind == "raise":
             self.ob("%s/post/exception-type" % fname, hyps, ro.cls == so.cls, info)
             if ro.msg is not None and so.msg is not None:
-                self.ob("%s/post/exception-message" % fname, hyps, values_equal(ro.msg, so.msg), info)
+                self.ob("%s/post/exception-message" % fname, hyps, messages_agree(ro.cls, ro.msg, so.msg), info)
             return
         self.ob("%s/post/result" % fname, hyps, values_equal(ro.value, so.value), info)
         for g in sorted(set(ro.st.glob) | set(so.st.glob)):
@@ -263,7 +286,7 @@ class Lockstep:
                     if ro.kind == "raise":
                         ls.ob(lname + "/step/exception-type", hyps, ro.cls == so.cls, info)
                         if ro.msg is not None and so.msg is not None:
-                            ls.ob(lname + "/step/exception-message", hyps, values_equal(ro.msg, so.msg), info)
+                            ls.ob(lname + "/step/exception-message", hyps, messages_agree(ro.cls, ro.msg, so.msg), info)
                         continue
                     if ro.kind == "ret":
                         ls.ob(lname + "/step/return", hyps, values_equal(ro.value, so.value), info)
